@@ -651,6 +651,16 @@ pub fn run_history(
                         for v in &r0.monitor {
                             monitor_out.lock().unwrap().push((history.to_vec(), format!("after crash@{}:{} {}", s.kind, rel(&s.path), v)));
                         }
+                        // C11 (iv): every segment the restarted process treats as published must be
+                        // the complete segment the uninterrupted run published under that id
+                        for (label, dig) in &r0.manifests {
+                            let reference = results.iter().find_map(|r| r.manifests.get(label));
+                            match reference {
+                                Some(d) if d == dig => {}
+                                Some(_) => monitor_out.lock().unwrap().push((history.to_vec(), format!("incomplete-after-crash: crash@{}:{} restart publishes {label} whose files differ from the complete segment", s.kind.split(' ').next().unwrap_or(""), rel(&s.path)))),
+                                None => monitor_out.lock().unwrap().push((history.to_vec(), format!("unknown-after-crash: crash@{}:{} restart publishes {label}, which the uninterrupted run never published", s.kind.split(' ').next().unwrap_or(""), rel(&s.path)))),
+                            }
+                        }
                     }
                     if !d.is_empty() {
                         let gates_passed: Vec<String> = phase_of(last, s.seq);
